@@ -12,7 +12,7 @@ CfgC04 == {Cf(i, FALSE, t, "password") : i \in BOOLEAN, t \in {"none", "ca", "ca
 CfgC11 == {Cf(TRUE, TRUE, "ca", "password")}
 CfgC11b == {Cf(TRUE, sm, "ca", "password") : sm \in BOOLEAN}
 CfgC14 == {Cf(TRUE, FALSE, "ca", c) : c \in {"password", "token"}}
-CfgC04sn == {Cf(FALSE, FALSE, "caother", "password"), Cf(FALSE, FALSE, "casn", "password")}
+CfgC04sn == {Cf(FALSE, FALSE, "caother", "password"), Cf(FALSE, FALSE, "casn", "password"), Cf(FALSE, FALSE, "cahost", "password")}
 CfgC04multi == {Cf(FALSE, FALSE, "ca", "password"), Cf(FALSE, TRUE, "ca", "password")}
 \* WebSocket transport: ws: (clear) and wss: (TLS from the dial on), insecure allowed or not
 CfW(i, sm, wss) == [insecure |-> i, sm |-> sm, tls |-> "none", cred |-> "password", ws |-> TRUE, wss |-> wss, skiptls |-> FALSE, sessalways |-> FALSE]
